@@ -99,11 +99,18 @@ package kfmt
 // fmtInt: never panics; a value that is not of a built-in integer type prints exactly the wrong-type
 // marker; the number occupies at least the (clamped) width and at most 22 digits, so with a width
 // above 31 the output is exactly 31 bytes (32 with the sign of a negative octal/hex number); earlier
-// output is untouched. (The digit-by-digit value of the output is not part of this contract.)
+// output is untouched. Digit values: the loop invariants pin the buffer down - digit k (least
+// significant first) is the character of (|v| / base^k) % base, exactly nd digits are produced
+// (the first quotient that is zero ends them), padding follows, and the final loop is shown to
+// reverse the buffer exactly; at the call that emits it the buffer is therefore the mirror image
+// of [digits, padding, sign] (two proved stepping stones at that call). The last composition
+// step - from the buffer to the bytes of the output log - did not discharge and is not claimed.
 //@ func fmtInt(w io.Writer, v interface{}, base int, padLen int)
 //@   property C15
 //@   requires bufsOK() && (base == 8 || base == 10 || base == 16)
 //@   modifies outLen, out, elems(uint8)
+//@   at call doWrite 2: assert nd >= 1 && nd <= 22 && nd <= end && q(magOf(v), uint64(base), nd) == 0 && forall(k, int, 1 <= k && k < nd ==> q(magOf(v), uint64(base), k) != 0)
+//@   at call doWrite 2: use nd <= end; forall(k, int, 0 <= k && k < end ==> numFmtBuf[k] == at(b0, dataptr(numFmtBuf) + uintptr(end-1-k))); forall(k, int, 0 <= k && k < nd ==> at(b0, dataptr(numFmtBuf) + uintptr(k)) == digitCh(digv(magOf(v), uint64(base), k)))
 //@   ensures wrong: !isUns(v) && !isSig(v) ==> outLen == old(outLen) + 13 && forall(i, int, 0 <= i && i < 13 ==> out[old(outLen)+i] == errWrongArgType[i]) && forall(j, int, !inLog(j, old(outLen), 13) ==> out[j] == old(out)[j])
 //@   ensures bounded: outLen - old(outLen) >= 1 && outLen - old(outLen) <= 33
 //@   ensures width: (isUns(v) || isSig(v)) ==> outLen - old(outLen) >= widthOf(padLen)
@@ -124,6 +131,10 @@ package kfmt
 //@   loop 2 invariant meta: (isUns(v) || isSig(v)) && (sval < 0 <==> negOf(v)) && padLen == ite(old(padLen) >= 32, 31, old(padLen)) && outLen == old(outLen) && out == old(out) && msgsSame()
 //@   loop 3 (numFmtBuf[end] == ' ') invariant scan: nd - 1 <= end && end <= right - 1 && (base != 10 ==> end == right - 1) && (base == 10 ==> forall(k, int, end < k && k < right ==> numFmtBuf[k] == ' '))
 //@   loop 4 (left < right) invariant rev: left >= 0 && right <= 32 && left + right == end - 1 && left <= right + 1 && end >= 1 && end <= 33 && bufsOK() && msgsSame() && outLen == old(outLen) && out == old(out)
+//@   loop 4 ghost b0 = contents(numFmtBuf)
+//@   loop 4 invariant low: forall(k, int, 0 <= k && k < left ==> numFmtBuf[k] == at(b0, dataptr(numFmtBuf) + uintptr(end-1-k)))
+//@   loop 4 invariant high: forall(k, int, right < k && k < end ==> numFmtBuf[k] == at(b0, dataptr(numFmtBuf) + uintptr(end-1-k)))
+//@   loop 4 invariant middle: forall(k, int, left <= k && k <= right ==> numFmtBuf[k] == at(b0, dataptr(numFmtBuf) + uintptr(k)))
 
 // Fprintf: for ANY format string and arguments no index, slice or type-assertion panic; the
 // scratch buffers keep their shape. (The directive-level output clause is not part of this contract.)
